@@ -24,7 +24,7 @@ def op_cases(ops, tier, rng, forms=("local", "threads"), exh_len=4, nrand=4000, 
     return cases
 
 
-def run_timed_check(pid, prop_file, theorem, ops, rule, assumptions, tier, seed, replay, extra=None, **kw):
+def run_timed_check(pid, prop_file, theorem, ops, rule, assumptions, tier, seed, replay, extra=None, post=None, **kw):
     rep = Report(pid, tier, seed)
     rng = Rng(seed)
     proof_stage(rep, prop_file)
@@ -33,6 +33,8 @@ def run_timed_check(pid, prop_file, theorem, ops, rule, assumptions, tier, seed,
     cases = load_replay_case(replay) if replay else op_cases(ops, tier, rng, **kw) + (extra(tier, rng) if extra else [])
     res = correspond(rep, pid, cases, theorem)
     xcheck.cross_check(rep, pid, cases, res, 40 if tier == "quick" else 400)
+    if post and not replay:
+        post(rep)
     c = rep.coverage
     hist = {}
     for _, _, t in cases:
